@@ -64,7 +64,8 @@ def contract(file, func, **kw):
 
 
 class SpecFn:
-    def __init__(self, fn, heap=True, opaque=False, axioms=None, hide=False):
+    def __init__(self, fn, heap=True, opaque=False, axioms=None, hide=False, fuel=0):
+        self.fuel = fuel              # > 0: recursive definition unfolded by E-matching at most `fuel` levels (Dafny-style fuel)
         self.hide = hide              # uninterpreted in ordinary obligations; revealed (inlined) inside lemmas
         self.fn = fn
         self.name = fn.__name__
@@ -180,3 +181,5 @@ def abspath_of(p):
 
 def at_entry(v): return v
 def fresh(v): return True
+
+def item(xs, j): return xs[j]
